@@ -129,3 +129,16 @@ Example c11_witness :
   | None => False
   end.
 Proof. vm_compute. split; reflexivity. Qed.
+
+(* ==== added after the audit of 2026-10-02 (selftest/audit/REPORT-2026-10-02.md) ==== *)
+Require Import Cadence.Proofs.AuditQ.
+
+(* the panic count after ANY background schedule (not only [quiesce]): the panics so far plus
+   the number of completions of the schedule that panicked ([npan] counts the SPanic in a list
+   of outcomes); it is always the number of panicked calls in the delivery log.  With
+   [c08_every_background_schedule]: every maximal schedule delivers all the other metrics *)
+Theorem c11_count_any_schedule : forall cap handler evs s rs wevs s' wrs,
+  run true (init_q cap handler) evs = Some (s, rs) ->
+  Forall worker_side wevs -> run true s wevs = Some (s', wrs) ->
+  q_panics s' = q_panics s + npan (finish_outs wevs) /\ q_panics s' = npanics (q_delivered s').
+Proof. exact panics_any_schedule. Qed.
